@@ -24,6 +24,8 @@ Definition TFail : ev := TCall RFail.
 Definition TNf : ev := TCall RNotFound.
 Definition TN : ev := TRecvNtfn.
 Definition TR : ev := TRetry.
+Definition EC (b : bool) : ev := EvCurrent b.
+Definition EQ : ev := EvQuit.
 Definition CC (id prev k : Z) (txs : list Z) : cb := CbConn (Z.to_N id) (Z.to_N prev) k (map Z.to_N txs).
 Definition CD (id prev k : Z) : cb := CbDisc (Z.to_N id) (Z.to_N prev) k.
 
@@ -46,6 +48,7 @@ Definition blocked_eqb (a b : blocked) : bool :=
   | BCall k x, BCall k' x' => (k =? k') && (x =? x')
   | BDone, BDone => true
   | BDead, BDead => true
+  | BExit, BExit => true
   | _, _ => false
   end.
 Definition obs_eqb (a b : obs) : bool :=
